@@ -30,6 +30,9 @@ def main():
         if want and not any(name.startswith(w) for w in want):
             continue
         m = json.load(open(metaf))
+        if m.get('superseded_by'):
+            print(name, 'skipped: superseded by fix', ', '.join(m['superseded_by']), '(confirmed against', m['base_commit'] + ')')
+            continue
         scratch = tempfile.mkdtemp(prefix='seedre.')
         try:
             sh(f'git -C /repo worktree add -q --detach {scratch} HEAD')
